@@ -7,6 +7,7 @@ import (
 	"os"
 	"os/exec"
 	"path/filepath"
+	"regexp"
 	"strings"
 	"sync"
 	"time"
@@ -36,8 +37,32 @@ var solverCmds = map[string]func(file string, timeoutS int, seed int) []string{
 var SolverOrder = []string{"z3-new", "z3", "cvc5"}
 
 func runOne(solver, file string, timeoutS, seed int) SolverRun {
-	args := solverCmds[solver](file, timeoutS, seed)
-	ctx, cancel := context.WithTimeout(context.Background(), time.Duration(timeoutS+3)*time.Second)
+	return runOneCtx(context.Background(), solver, file, timeoutS, seed)
+}
+
+// cvc5 does not accept z3's (lambda ...) array terms: it gets the query with every lambda definition
+// replaced by the equivalent quantified definition (written next to the query as <file>.cvc5).
+func fileFor(solver, file string) string {
+	if solver == "cvc5" {
+		if _, err := os.Stat(file + ".cvc5"); err == nil {
+			return file + ".cvc5"
+		}
+	}
+	return file
+}
+
+var lambdaDefRe = regexp.MustCompile(`(?m)^\(define-fun (\S+) \(\) (\(Array Loc .*?\)) \(lambda \(\((l![0-9]+) Loc\)\) (.*)\)\)$`)
+
+func quantifiedVariant(q string) (string, bool) {
+	if !strings.Contains(q, "(lambda ((") {
+		return "", false
+	}
+	return lambdaDefRe.ReplaceAllString(q, "(declare-const $1 $2)\n(assert (forall (($3 Loc)) (! (= (select $1 $3) $4) :pattern ((select $1 $3)))))"), true
+}
+
+func runOneCtx(parent context.Context, solver, file string, timeoutS, seed int) SolverRun {
+	args := solverCmds[solver](fileFor(solver, file), timeoutS, seed)
+	ctx, cancel := context.WithTimeout(parent, time.Duration(timeoutS+3)*time.Second)
 	defer cancel()
 	cmd := exec.CommandContext(ctx, args[0], args[1:]...)
 	var out bytes.Buffer
@@ -56,6 +81,8 @@ func runOne(solver, file string, timeoutS, seed int) SolverRun {
 		res = "sat"
 	case first == "unknown":
 		res = "unknown"
+	case parent.Err() != nil:
+		res = "cancelled"
 	case strings.Contains(first, "timeout") || ctx.Err() != nil || strings.Contains(s, "interrupted by timeout"):
 		res = "timeout"
 	}
@@ -65,47 +92,51 @@ func runOne(solver, file string, timeoutS, seed int) SolverRun {
 	return SolverRun{Solver: solver, Result: res, Seconds: secs, Output: s}
 }
 
-// Discharge runs the portfolio on one query file. Returns all runs made. An "unsat" from any solver
-// discharges. Strategy: z3-new first; if it does not answer unsat, the two others in parallel; then
-// (if retry) everything again with 3x time and another seed.
-func Discharge(file string, timeoutS int, seed int, retry bool, all bool) []SolverRun {
-	var runs []SolverRun
-	if all {
-		var wg sync.WaitGroup
-		res := make([]SolverRun, len(SolverOrder))
-		for i, s := range SolverOrder {
-			wg.Add(1)
-			go func() { defer wg.Done(); res[i] = runOne(s, file, timeoutS, seed) }()
-		}
-		wg.Wait()
-		return res
+// race runs all solvers at once; the first "unsat" cancels the others.
+func race(file string, timeoutS, seed int, waitAll bool) []SolverRun {
+	ctx, cancel := context.WithCancel(context.Background())
+	defer cancel()
+	ch := make(chan SolverRun, len(SolverOrder))
+	for _, s := range SolverOrder {
+		go func() { ch <- runOneCtx(ctx, s, file, timeoutS, seed) }()
 	}
-	r := runOne("z3-new", file, timeoutS, seed)
-	runs = append(runs, r)
+	var runs []SolverRun
+	for range SolverOrder {
+		r := <-ch
+		runs = append(runs, r)
+		if r.Result == "unsat" && !waitAll {
+			cancel()
+		}
+	}
+	return runs
+}
+
+// Discharge runs the portfolio on one query file. Returns all runs made. An "unsat" from any solver
+// discharges. Strategy: z3-new alone for a short slice (most obligations are decided in well under a
+// second); otherwise the three solvers raced with the full limit; then (if retry) raced again with three
+// times the limit and another seed.
+func Discharge(file string, timeoutS int, seed int, retry bool, all bool) []SolverRun {
+	if all {
+		return race(file, timeoutS, seed, true)
+	}
+	quick := 2
+	if timeoutS < quick {
+		quick = timeoutS
+	}
+	r := runOne("z3-new", file, quick, seed)
+	runs := []SolverRun{r}
 	if r.Result == "unsat" {
 		return runs
 	}
-	var wg sync.WaitGroup
-	res := make([]SolverRun, 2)
-	for i, s := range []string{"z3", "cvc5"} {
-		wg.Add(1)
-		go func() { defer wg.Done(); res[i] = runOne(s, file, timeoutS, seed) }()
-	}
-	wg.Wait()
-	runs = append(runs, res...)
-	for _, r := range res {
+	rs := race(file, timeoutS, seed, false)
+	runs = append(runs, rs...)
+	for _, r := range rs {
 		if r.Result == "unsat" {
 			return runs
 		}
 	}
 	if retry {
-		res := make([]SolverRun, len(SolverOrder))
-		for i, s := range SolverOrder {
-			wg.Add(1)
-			go func() { defer wg.Done(); res[i] = runOne(s, file, timeoutS*3, seed+7919) }()
-		}
-		wg.Wait()
-		runs = append(runs, res...)
+		runs = append(runs, race(file, timeoutS*3, seed+7919, false)...)
 	}
 	return runs
 }
@@ -165,6 +196,9 @@ func writeScratch(name, content string) string {
 // ---- term helpers ----------------------------------------------------------------------------
 
 func sx(op string, args ...string) string {
+	if r, ok := simp(op, args); ok {
+		return r
+	}
 	return "(" + op + " " + strings.Join(args, " ") + ")"
 }
 
@@ -267,6 +301,9 @@ func ite(c, a, b string) string {
 func eq(a, b string) string {
 	if a == b {
 		return "true"
+	}
+	if r, ok := simp("=", []string{a, b}); ok {
+		return r
 	}
 	return sx("=", a, b)
 }
